@@ -439,6 +439,9 @@ def check_recall_content(ctx, res):
                     nones = [m for m in content.markers(w, 'posnone') if m[0] == 'H' and m[3] == 0]
                     newc = C03.L(cur[3][0]) if (cur[0] == 'adt' and cur[2] == 1) else None
                     ob('cursor-is-start', eq(newc, s_), "the navigation cursor is not set to the start of the returned element")
+                    ob('within-used', le(fm.add(s_, one), used0),
+                       "the returned element is not shown to start inside the bytes in use (start %s, used %s): bytes left behind by an "
+                       "eviction could be recalled" % (content.fmt(s_), content.fmt(used0)))
                     if name == 'next_older':
                         anchor = hc0 if had_cursor else used0         # start of the current entry / end of the stored bytes
                         e = fm.add(anchor, one, -1)                   # the NUL that terminates the entry before it
